@@ -241,3 +241,98 @@ fn twin_sync_parent_configured() {
     assert!(api::local_parent() == Some(pid));
     kani::cover!(true);
 }
+
+// ------------------------------------------------------------------------------------------------
+// Span NAMES and span COUNTS of the expansions, without the (out-of-reach) span stack: the two
+// entry points every expansion goes through are replaced by recording stubs.
+//   sync fn              -> LocalSpan::enter_with_local_parent(<name>)            once per call
+//   async fn             -> Span::enter_with_local_parent(<name>)                 once per call
+//   async + enter_on_poll-> LocalSpan::enter_with_local_parent(<name>)            once per poll
+use std::borrow::Cow;
+
+static mut NCALLS_LOCAL: usize = 0;
+static mut NCALLS_SPAN: usize = 0;
+static mut LAST_NAME: (usize, [u8; 3], [u8; 4]) = (0, [0; 3], [0; 4]);
+
+fn probe(c: &Cow<'static, str>) -> (usize, [u8; 3], [u8; 4]) {
+    let b = c.as_bytes();
+    let n = b.len();
+    let g = |k: usize| if k < n { b[k] } else { 0 };
+    let l = |k: usize| if n >= k { b[n - k] } else { 0 };
+    (n, [g(0), g(1), g(2)], [l(4), l(3), l(2), l(1)])
+}
+
+fn rec_local<T: Into<Cow<'static, str>>>(name: T) -> fastrace::local::LocalSpan {
+    let c: Cow<'static, str> = name.into();
+    unsafe {
+        NCALLS_LOCAL += 1;
+        LAST_NAME = probe(&c);
+    }
+    std::mem::forget(c);
+    fastrace::local::LocalSpan::default()
+}
+
+fn rec_span<T: Into<Cow<'static, str>>>(name: T) -> Span {
+    let c: Cow<'static, str> = name.into();
+    unsafe {
+        NCALLS_SPAN += 1;
+        LAST_NAME = probe(&c);
+    }
+    std::mem::forget(c);
+    Span::noop()
+}
+
+fn last_name() -> (usize, [u8; 3], [u8; 4]) {
+    unsafe { LAST_NAME }
+}
+
+#[kani::proof]
+#[kani::unwind(6)]
+#[kani::stub(fastrace::local::LocalSpan::enter_with_local_parent, rec_local)]
+#[kani::stub(fastrace::Span::enter_with_local_parent, rec_span)]
+fn twin_names_sync() {
+    let a: u8 = kani::any();
+    let b: u8 = kani::any();
+    let _ = s1(a, b);
+    assert!(unsafe { NCALLS_LOCAL } == 1 && unsafe { NCALLS_SPAN } == 0, "a sync traced call must open exactly one local span");
+    // default name = func_path!() = "harness_crate::twins::s1" (24 bytes)
+    assert!(last_name() == (24, *b"har", *b"::s1"), "default span name is not the function's full path");
+    let mut l = Log::default();
+    let _ = s2(&mut l, a, b);
+    assert!(unsafe { NCALLS_LOCAL } == 2);
+    assert!(last_name() == (13, *b"s2-", *b"ured"), "configured name not used");
+    let arr = [1u8, 2];
+    let h = Holder { v: &arr };
+    let _ = h.pick(a);
+    assert!(unsafe { NCALLS_LOCAL } == 3);
+    assert!(last_name() == (4, *b"pic", *b"pick"), "short_name must be the bare identifier");
+    kani::cover!(true);
+}
+
+#[kani::proof]
+#[kani::unwind(5)]
+#[kani::stub(fastrace::local::LocalSpan::enter_with_local_parent, rec_local)]
+#[kani::stub(fastrace::Span::enter_with_local_parent, rec_span)]
+fn twin_names_async_enter_on_poll() {
+    let a: u8 = kani::any();
+    // enter_on_poll: one local span per poll, named "<path>::{{closure}}" (37 bytes)
+    let (seq, _) = poll3(a6(a));
+    assert!(seq[0] == 1 && seq[1] == 2);
+    assert!(unsafe { NCALLS_LOCAL } == 2 && unsafe { NCALLS_SPAN } == 0, "enter_on_poll must open exactly one local span per poll");
+    assert!(last_name() == (37, *b"har", *b"re}}"), "enter_on_poll: name must be the configured / default name");
+    kani::cover!(true);
+}
+
+#[kani::proof]
+#[kani::unwind(5)]
+#[kani::stub(fastrace::local::LocalSpan::enter_with_local_parent, rec_local)]
+#[kani::stub(fastrace::Span::enter_with_local_parent, rec_span)]
+fn twin_names_async_in_span() {
+    let a: u8 = kani::any();
+    // async fn: one thread-safe span per call, named "<path>::{{closure}}" (37 bytes)
+    let (seq, out) = poll3(a5(a));
+    assert!(seq[0] == 1 && seq[1] == 2 && out == Some(a.wrapping_mul(3)));
+    assert!(unsafe { NCALLS_SPAN } == 1 && unsafe { NCALLS_LOCAL } == 0, "an async traced call must create exactly one span");
+    assert!(last_name() == (37, *b"har", *b"re}}"), "async default name must be the full path with ::{{closure}}");
+    kani::cover!(true);
+}
